@@ -5,5 +5,5 @@ cd /repo || exit 2
 if ! git diff --quiet; then echo "REPO DIRTY"; exit 2; fi
 if ! git apply --check "$d/patch.diff" 2>/dev/null; then echo "PATCH DOES NOT APPLY: $d"; exit 3; fi
 git apply "$d/patch.diff"
-( cd /verif && ./check $pid $tier 2>&1 | grep -E "^$pid|VIOLATION|HARNESS|signature" | head -8 )
+( cd /verif && PGV_NO_EVIDENCE=1 ./check $pid $tier 2>&1 | grep -E "^$pid|VIOLATION|HARNESS|signature" | head -8 )
 git checkout -- .
